@@ -146,8 +146,63 @@ AAG_EVENTS = ['100', '200', '400', '800', '1000', '1500', '60H', 'SH', 'LH', 'HJ
               '80H', '100H', '110H', '300H', '400H', '150H']
 
 
+_SPECIAL = {}
+
+
+def special_cells():
+    """(table, gender, event, first age, last age) runs of non-numeric cells in the WMA factor tables
+    (read from the data files of the tree under test): arguments that land on them take the rarely
+    executed paths (None factors), and a hole somebody "repairs" lazily is a classic half-built object."""
+    if 'cells' in _SPECIAL:
+        return _SPECIAL['cells']
+    by_range = {}
+    for grp, fn in (('wma2015', 'wma-data-2015.json'), ('wma2023', 'wma-data-2023.json')):
+        try:
+            with open(os.path.join(common.ATHLIB_DIR, 'wma', fn)) as f:
+                d = json.load(f)
+            ages = d['ages']
+            for g in ('m', 'f'):
+                for row in d[g]:
+                    run = []
+                    cells = list(zip(ages, row[3:])) + [(None, 0.0)]
+                    for age, x in cells:
+                        if age is not None and not isinstance(x, (int, float)):
+                            run.append(age)
+                        elif run:
+                            by_range.setdefault((run[0], run[-1]), []).append((grp, g, row[0], run[0], run[-1]))
+                            run = []
+        except Exception:
+            pass
+    _SPECIAL['cells'] = [by_range[k] for k in sorted(by_range)]
+    return _SPECIAL['cells']
+
+
+def numeric_arg(r, lo, hi):
+    """A mark in every spelling callers use: rounded float, full-precision float, int, numeric string,
+    string with many digits."""
+    x = r.uniform(lo, hi)
+    k = r.random()
+    if k < 0.45:
+        return round(x, 2)
+    if k < 0.65:
+        return x
+    if k < 0.75:
+        return int(x)
+    if k < 0.9:
+        return '%.2f' % x
+    return '%.10f' % x
+
+
 def gen_call(rng, grp):
     r = rng
+    if grp in ('wma2023', 'wma2015') and r.random() < 0.12 and special_cells():
+        cells = [x for x in r.choice(special_cells()) if x[0] == grp] or r.choice(special_cells())
+        sg, g, ev, a0, a1 = r.choice(cells)
+        yk = {'year': 2015} if sg == 'wma2015' else {}
+        age = r.randint(a0, a1)
+        if r.random() < 0.7:
+            return c('wma_age_factor', g, age, ev, **yk)
+        return c('wma_age_grade', g, age, ev, '3.00', **yk)
     if grp in ('wma2023', 'wma2015'):
         yk = {'year': 2015} if grp == 'wma2015' else {}
         g = r.choice(['m', 'f', 'm', 'f', 'M', 'F'])
@@ -166,18 +221,22 @@ def gen_call(rng, grp):
         ev = r.choice(ATHLON_EVENTS) if r.random() < 0.95 else 'XYZ'
         k = r.random()
         if k < 0.45:
-            return c('athlon_score', g, ev, round(r.uniform(1.0, 300.0), 2))
+            v = numeric_arg(r, 1.0, 300.0)
+            return c('athlon_score', g, ev, v if not isinstance(v, str) else float(v))
         if k < 0.6:
-            return c('athlon_score', g, ev, round(r.uniform(1.0, 300.0), 2), age=r.choice([35, 40, 47, 55, 63, 70, 81]))
+            return c('athlon_score', g, ev, round(r.uniform(1.0, 300.0), 2), age=r.choice([35, 40, 47, 55, 63, 70, 81, r.randint(30, 100)]))
         if k < 0.65:
             return c('athlon_score', g, ev, round(r.uniform(100.0, 160.0), 2), esaa=True)
         return c('athlon_performance_needed', g, ev, r.choice([0, 1, 400, 750, 1000, 1250, -3]))
     if grp == 'hungarian':
         return c('hungarian_score', r.choice(['M', 'F', 'M', 'F', 'X']), r.choice(['OUT', 'OUT', 'IND', 'XX']) if r.random() < 0.97 else 'IN',
-                 r.choice(HUN_EVENTS), round(r.uniform(1.0, 9000.0), 2))
+                 r.choice(HUN_EVENTS), r.choice([round(r.uniform(1.0, 9000.0), 2), r.uniform(1.0, 100.0), r.randint(1, 9000)]))
     if grp == 'sportshall':
         ev = r.choice(SH_EVENTS) if r.random() < 0.95 else 'XX'
-        return c('sportshall_score', ev if r.random() < 0.9 else ev.lower(), '%.2f' % r.uniform(0.3, 300.0))
+        perf = numeric_arg(r, 0.3, 300.0)
+        if isinstance(perf, float) and r.random() < 0.5:
+            perf = '%.2f' % perf        # the declared spelling is a string
+        return c('sportshall_score', ev if r.random() < 0.9 else ev.lower(), perf)
     if grp == 'aag':
         if r.random() < 0.9:
             return c('wma_athlon_age_factor', r.choice(['M', 'F', 'm', 'f']), r.choice([r.randint(30, 105), 35, 66, 69.5]),
@@ -272,11 +331,33 @@ def gen_cache_fill(rng, programs=None):
     return fill
 
 
+
+
 def gen_scenario(rng):
     scn = _gen_scenario(rng)
     if scn['variant'] == 'cachefull':
         scn['warm'] = gen_cache_fill(rng, scn['programs'])
+    # knob randomisation ("buggify"): in 30 % of the scenarios every bounded-cache helper of athlib gets a
+    # tiny bound, so that caches sit at their limit - and their eviction paths run - after two or three
+    # calls instead of twenty (or 256).  A cache must be transparent at any size.
+    if rng.random() < 0.3:
+        scn['knobs'] = {'cache_max': rng.choice([2, 3, 5])}
+    # extra warm-up: a few more calls of the families the scenario uses, ending (half of the time) with
+    # one of the scenario's own calls - memo tables are then populated, and the entry a thread is about to
+    # hit is the most recently stored one (the one a LIFO eviction, or an overwrite, takes away first)
+    if scn['variant'] != 'first' and rng.random() < 0.5:
+        groups = sorted(set(g for g in [scn['group']] if g in CATALOGUE)) or \
+            sorted(set(gg for gg, _ in DEFAULT_GROUP_WEIGHTS))
+        extra = [pick_call(rng, rng.choice(groups)) for _ in range(rng.randint(1, 6))]
+        mine = [cl for p in scn['programs'] for cl in p]
+        if mine and rng.random() < 0.7:
+            extra.append(rng.choice(mine))
+        scn['warm_extra'] = extra
     return scn
+
+
+def apply_knobs(athlib, scn):
+    return common.cap_size_knobs((scn.get('knobs') or {}).get('cache_max'))
 
 
 def _gen_scenario(rng):
@@ -340,6 +421,7 @@ def make_callable(athlib, call):
 def warm_up(athlib, scn):
     """Deterministic single-threaded warm-up defining the base state of a scenario."""
     variant = scn['variant']
+    apply_knobs(athlib, scn)
     if variant == 'first':
         return
     import jsonschema
@@ -358,6 +440,7 @@ def warm_up(athlib, scn):
                                validator=V(VALIDATORS[(i // len(SCHEMAS)) % 4])))
             for d, s in DOC_PAIRS[:22]:
                 calls.append(c('utils.valid_against_schema', d, s))
+    calls += scn.get('warm_extra') or []
     for cl in calls:
         make_callable(athlib, cl)()
 
@@ -375,13 +458,26 @@ def linearizations(lens):
 
 
 class _Recorder(object):
-    """sys.settrace recorder for the sequential oracle runs (line keys + write lines)."""
+    """sys.settrace recorder for the sequential oracle runs (line keys + write lines + every line of the
+    functions entered, executed or not: code that only runs under an interleaving has no line in any
+    sequential trace, yet a pre-emption may be needed exactly there)."""
     def __init__(self, adir):
         self.adir = adir
         self.cur = None
         self.wlines = set()
+        self.codes = set()
+        self.static = set()
     def glob(self, frame, event, arg):
-        if frame.f_code.co_filename.startswith(self.adir):
+        code = frame.f_code
+        if code.co_filename.startswith(self.adir):
+            if code not in self.codes:
+                self.codes.add(code)
+                try:
+                    for _, _, ln in code.co_lines():
+                        if ln is not None:
+                            self.static.add((code.co_filename, ln))
+                except Exception:
+                    pass
             return self.local
         return None
     def local(self, frame, event, arg):
@@ -400,17 +496,20 @@ def run_sequential(athlib, programs, order):
     idx = [0] * len(programs)
     outs = [[None] * len(p) for p in programs]
     traces = [[] for _ in programs]
+    static = [set() for _ in programs]
     for t in order:
         i = idx[t]; idx[t] += 1
         fn = make_callable(athlib, programs[t][i])
         rec.cur = []
+        rec.codes = set(); rec.static = set()
         sys.settrace(rec.glob)
         try:
             outs[t][i] = fn()
         finally:
             sys.settrace(None)
         traces[t].extend(rec.cur)
-    return outs, traces, rec.wlines
+        static[t] |= rec.static
+    return outs, traces, (rec.wlines, static)
 
 
 def run_schedule(athlib, programs, sched_spec, step_cap, record=False):
@@ -440,7 +539,8 @@ def quiet_stdout():
 # ---------------------------------------------------------------------------------------------
 # schedules
 
-SAMPLERS = ('step', 'line', 'write')
+SAMPLERS = ('step', 'line', 'write', 'static')
+SAMPLER_WEIGHTS = [('step', 30), ('line', 30), ('write', 30), ('static', 10)]
 
 
 def draw_schedule(rng, nthreads, traces, wlines, used=None):
@@ -460,7 +560,7 @@ def draw_schedule(rng, nthreads, traces, wlines, used=None):
 def _draw_schedule(rng, nthreads, traces, wlines):
     """traces[t] = the distinct line traces [(file, line), ...] thread t's program had sequentially."""
     d = weighted(rng, [(0, 5), (1, 35), (2, 45), (3, 15)])
-    sampler = rng.choice(SAMPLERS)
+    sampler = weighted(rng, SAMPLER_WEIGHTS)
     first = rng.randrange(nthreads)
     pref = list(range(nthreads)); rng.shuffle(pref)
     pre = []
@@ -473,6 +573,14 @@ def _draw_schedule(rng, nthreads, traces, wlines):
             continue
         tr = rng.choice(traces[t])
         if not tr:
+            continue
+        st = getattr(wlines, 'static', None)
+        if sampler == 'static' and st and st[t] and rng.random() < 0.8:
+            # any line of any function this thread entered - executed sequentially or not - first time reached
+            key = tuple(rng.choice(st[t]))
+            others = [x for x in range(nthreads) if x != t]
+            pre.append({'thread': t, 'file': os.path.relpath(key[0], common.ATHLIB_DIR), 'line': key[1],
+                        'occ': rng.choice([1, 1, 1, 2]), 'to': rng.choice(others)})
             continue
         if sampler == 'step':
             i = rng.randrange(len(tr))
@@ -519,6 +627,11 @@ def violation_class(programs, accepted, res):
     return None
 
 
+class WLines(set):
+    """the write lines of a scenario, plus .static[t]: every line of every athlib function thread t entered"""
+    static = None
+
+
 def oracle(athlib, programs, wall_cap=60.0):
     """Accepted outcome set per call + per-thread traces, from sequential runs in forks.
 
@@ -530,14 +643,17 @@ def oracle(athlib, programs, wall_cap=60.0):
     accepted = [[set() for _ in p] for p in programs]
     traces = [[] for _ in programs]
     wlines = set()
+    static = [set() for _ in programs]
     norders = 0
     for order in linearizations(lens):
         def job(order=order):
             quiet_stdout()
             return run_sequential(athlib, programs, order)
-        outs, trs, wl = common.fork_call(job, wall_cap=wall_cap, what='sequential oracle run')
+        outs, trs, (wl, st) = common.fork_call(job, wall_cap=wall_cap, what='sequential oracle run')
         norders += 1
         wlines |= wl
+        for t in range(len(programs)):
+            static[t] |= st[t]
         for t in range(len(programs)):
             for i in range(lens[t]):
                 accepted[t][i].add(outs[t][i])
@@ -545,6 +661,8 @@ def oracle(athlib, programs, wall_cap=60.0):
                 traces[t].append(trs[t])
     for t in range(len(programs)):
         traces[t].sort(key=lambda tr: (-len(tr), tr))
+    wlines = WLines(wlines)
+    wlines.static = [sorted(x) for x in static]
     return accepted, traces, wlines, norders
 
 
